@@ -1,6 +1,6 @@
 (* C17 — the simulation statement; the hold node; node lists. *)
 From Coq Require Import ZArith QArith List Bool Lia ZifyBool Setoid.
-Require Import QV.C17.Model QV.C17.Spec QV.C17.Proofs QV.C17.ProofsVM QV.C17.SimDefs QV.C17.ProofsTr1 QV.C17.ProofsTr2
+Require Import QV.C17.Model QV.C17.Spec QV.C17.Proofs QV.C17.ProofsVM QV.C17.SimDefs QV.C17.ProofsTr1 QV.C17.ProofsTr2 QV.C17.ProofsTr3
                QV.C17.ProofsSim1 QV.C17.ProofsSim2 QV.C17.ProofsSim3.
 Import ListNotations.
 Local Open Scope Z_scope.
@@ -14,11 +14,12 @@ Section sim.
   Variable Fs : list (nat * list Q).
   Hypothesis Fs_inj : keys_inj_b Fs = true.
   Variable C : nat.
+  Variable reps : bool.
 
   Definition sim_stmt (tr : tstate -> res (list cmd * tstate)) (lastd : nat * key -> option (Q * list Z))
              (play : list Z -> Q -> steps_t * Q) (d : nat) : Prop :=
     forall st cs st' I cmds pre post s,
-      tr st = Ok (cs, st') -> length (t_iters st) = d -> length I = d -> dyn_ok (t_iters st) I ->
+      tr st = Ok (cs, st') -> (reps = true -> t_stable st' = true) -> length (t_iters st) = d -> length I = d -> dyn_ok (t_iters st) I ->
       cmds = pre ++ cs ++ post -> Forall (fun l => l < t_label st) (labels pre) ->
       v_pc s = length pre -> length (v_cur s) = C ->
       Pact st s -> Pplain st s -> Idep Fs (Kof lastd) st s I ->
@@ -30,10 +31,10 @@ Section sim.
         (forall l, l < t_label st -> alookup Z.eqb l (v_counts s') = alookup Z.eqb l (v_counts s)).
 
   Definition node_stmt (n : node) : Prop :=
-    forall d, node_ok false C d n = true -> incl (node_factors n) Fs ->
+    forall d, node_ok reps C d n = true -> incl (node_factors n) Fs ->
     sim_stmt (tr_node n) (fun ck => last_node (h_dep ck) up_dep n) (nplay n) d.
   Definition list_stmt (B : list node) : Prop :=
-    forall d, nodes_ok false C d B = true -> incl (flat_map node_factors B) Fs ->
+    forall d, nodes_ok reps C d B = true -> incl (flat_map node_factors B) Fs ->
     sim_stmt (tr_nodes B) (fun ck => last_dep ck B) (nplay_list B) d.
 
   Lemma Idep_weaken : forall (K K' : nat * key -> Prop) st s I, (forall ck, K' ck -> K ck) -> Idep Fs K st s I -> Idep Fs K' st s I.
@@ -42,7 +43,7 @@ Section sim.
   (* ---- hold *)
   Lemma sim_hold : forall vs dur, node_stmt (NHold vs dur).
   Proof.
-    intros vs dur d Hok Hin st cs st' I cmds pre post s HT Hd HI HDyn Hc Hlab Hpc Hcur HA HP HD.
+    intros vs dur d Hok Hin st cs st' I cmds pre post s HT HSt Hd HI HDyn Hc Hlab Hpc Hcur HA HP HD.
     cbn [node_ok] in Hok. apply andb_prop in Hok as [Hlen Hhok]. apply Nat.eqb_eq in Hlen.
     rewrite tr_node_hold in HT. destruct (tr_hold_chs 0 vs st) as [[c1 st1]|] eqn:E; cbn [bind] in HT; [|discriminate].
     inversion HT; subst cs st'; clear HT.
@@ -83,7 +84,7 @@ Section sim.
 
   Lemma sim_list : forall B, Forall node_stmt B -> list_stmt B.
   Proof.
-    induction 1 as [|x B Hx HB IH]; intros d Hok Hin st cs st' I cmds pre post s HT Hd HI HDyn Hc Hlab Hpc Hcur HA HP HD.
+    induction 1 as [|x B Hx HB IH]; intros d Hok Hin st cs st' I cmds pre post s HT HSt Hd HI HDyn Hc Hlab Hpc Hcur HA HP HD.
     - cbn in HT. inversion HT; subst cs st'. exists s. split; [apply reach_refl|]. split; [cbn; lia|].
       repeat split; auto. exists []. split; auto. cbn. constructor.
     - rewrite tr_nodes_cons in HT.
@@ -97,7 +98,7 @@ Section sim.
       set (lB := fun ck => last_dep ck B) in *.
       assert (Hl : forall ck, last_dep ck (x :: B) = orlast (lx ck) (lB ck)) by reflexivity.
       assert (Hc1 : cmds = pre ++ c1 ++ (c2 ++ post)) by (rewrite Hc, <- app_assoc; reflexivity).
-      destruct (Hx d Hokx Hinx st c1 st1 I cmds pre (c2 ++ post) s E1 Hd HI HDyn Hc1 Hlab Hpc Hcur HA HP)
+      destruct (Hx d Hokx Hinx st c1 st1 I cmds pre (c2 ++ post) s E1 (fun e => mono_nodes _ _ _ _ E2 (HSt e)) Hd HI HDyn Hc1 Hlab Hpc Hcur HA HP)
         as (s1 & R1 & Pc1 & Cu1 & A1 & P1 & D1 & F1 & (h1 & Hh1 & Hr1) & T1 & Cn1).
       { eapply Idep_weaken; [|exact HD]. intros ck [X Y]. split; auto. rewrite Hl. fold (lx ck) in Y.
         destruct (lB ck); cbn; [discriminate|exact Y]. }
@@ -116,7 +117,7 @@ Section sim.
           destruct (HD ch k b olds) as (r & Rr & Rv); auto.
           { split; auto. rewrite Hl, Ex. fold (lB (ch, k)) in KB. destruct (lB (ch, k)); cbn; [discriminate|contradiction]. }
           exists r. rewrite F1 by auto. split; auto. rewrite SI1. exact Rv. }
-      destruct (IH d HokB HinB st1 c2 st2 I cmds (pre ++ c1) post s1 E2 Q1 HI Q2 Hc2 Q3 Q4 Cu1 A1 P1 Q5) as
+      destruct (IH d HokB HinB st1 c2 st2 I cmds (pre ++ c1) post s1 E2 HSt Q1 HI Q2 Hc2 Q3 Q4 Cu1 A1 P1 Q5) as
         (s2 & R2 & Pc2 & Cu2 & A2 & P2 & D2 & F2 & (h2 & Hh2 & Hr2) & T2 & Cn2).
       exists s2. split; [eapply reach_trans; eauto|]. split; [rewrite Pc2, !app_length; lia|]. split; auto.
       split; auto. split; auto. split; [|split; [|split; [|split]]].
